@@ -89,6 +89,17 @@ theorem C16_generated :
     dirLockCfg locksetTable = Cfg.good := by decide
 
 set_option maxRecDepth 100000 in
+/-- `DB.Close` releases the directory lock last: no file is closed or synced after the release on any
+path of the current tree (so "the database is open" and "the lock is held" coincide until `Close`
+has finished with the files). -/
+theorem C16_generated_close_order : CloseReleasesLast locksetTable := by decide
+
+/-- the predicate is not vacuous: a `Close` that unlocks first and closes the active file afterwards -/
+example : ¬ CloseReleasesLast
+    [⟨"DB.Close", 0, "acqW", .W, 1⟩, ⟨"DB.Close", 1, "flockRelease", .W, 1⟩,
+     ⟨"DB.Close", 2, "closeFile", .W, 1⟩, ⟨"DB.Close", 3, "relW", .W, 1⟩, ⟨"DB.Close", 4, "ret", .none, 0⟩] := by decide
+
+set_option maxRecDepth 100000 in
 /-- The literal reading "EVERY `retErr` after `flockTry` is preceded by a `flockRelease`" does not
 hold on the current table: the offending rows are exactly two error returns of `Open`, the two
 acquisition-failure returns.  (Reported rather than hidden; see `Lockset.ReleasesOnError`.) -/
